@@ -644,6 +644,13 @@ pub fn run_prop(ctx: &Ctx) -> PropReport {
     rep.part(|| run_random(ctx, "misuse",
         "valid C01-style runs with 1-15 misuse calls inserted at arbitrary ticks (add_local_input for a non-local handle, advance_frame with an input missing or before synchronisation, disconnect_player for a local/unknown/already disconnected player, set_input_delay / network_stats for the wrong player type): each must return the documented error, nothing may panic, and the run must be identical (request traces, states, events, connection status) to the twin without those calls, where a call that polls internally is replaced by a bare poll",
         || gen_misuse(tier), ctx.tier.pick(5000, 20000), eval_misuse));
+    rep.part(|| run_enum(ctx, "synctest_misuse",
+        "SyncTestSession over C13's configurations (players 1..=4, window, check distance, delay): every 7th frame advance_frame() is first called with the last player's input missing while decoy values are registered for the others; it must return InvalidRequest without moving the frame, and the session must go on exactly as if the call had not been made: the inputs registered afterwards are the ones handed out (C13's input oracle), no mismatch, request contract intact",
+        super::c13::DET_CONFIGS, move |i| {
+            let mut c = super::c13::det_case(i, mix(seed, 0x5c16), 60);
+            c.retry_misuse = true;
+            c
+        }, super::c13::eval, true));
     rep.assumptions = vec!["'exactly what the documentation allows' is the reference predicate in props/c16.rs (written from the rustdoc of SessionBuilder); input delay and prediction window are kept within 0..=16".into()];
     rep
 }
